@@ -406,6 +406,32 @@ func VH_match_step() {
 	vapi.AssertBytesEqual(layer4.VerifBuf(cx), B, "matching changed the buffered bytes")
 }
 
+// VH_wrap_step: Wrap from any state yields a Connection that satisfies the
+// representation invariant and whose reads continue the abstract stream.
+func VH_wrap_step() {
+	B := vapi.Bytes("B", 10239)
+	D := vapi.Bytes("D", 4096)
+	off := vapi.Int("offset", 0, 10239)
+	vapi.Assume(off <= len(B))
+	conn := &env.SymConn{D: D}
+	cx := layer4.WrapConnection(conn, nil, zap.NewNop())
+	layer4.VerifSetState(cx, B, off, off, false)
+	w := cx.Wrap(passConn{Conn: cx, inner: cx})
+	vapi.Assert(layer4.VerifOffset(w) >= 0 && layer4.VerifOffset(w) <= layer4.VerifBufLen(w), "Wrap produced a Connection whose read offset is outside its buffer")
+	vapi.Assert(!layer4.VerifMatching(w), "Wrap changed the mode")
+	p := make([]byte, vapi.Int("plen", 1, 12000))
+	n, err := w.Read(p)
+	avail := len(B) - off
+	if avail > 0 {
+		vapi.Cover("unread bytes at Wrap time")
+		vapi.Assert(err == nil && n == vapi.Min(len(p), avail), "first read after Wrap: wrong length")
+		vapi.AssertBytesEqual(p[:n], B[off:off+n], "first read after Wrap does not continue the stream")
+	} else {
+		vapi.Cover("drained at Wrap time")
+		vapi.AssertBytesEqual(p[:n], D[:n], "first read after Wrap does not continue the stream")
+	}
+}
+
 // ---- one-step lemma over the Connection representation -----------------------------------
 
 // VH_read_step: from any Connection state satisfying the representation
@@ -447,7 +473,7 @@ func init() {
 		"VH_core": VH_core, "VH_two_matchers": VH_two_matchers, "VH_wrap": VH_wrap, "VH_proxyproto": VH_proxyproto,
 		"VH_tee": VH_tee, "VH_throttle": VH_throttle, "VH_echo": VH_echo, "VH_read_step": VH_read_step,
 		"VH_step_rec": VH_step_rec, "VH_step_wrap": VH_step_wrap, "VH_step_proxyproto": VH_step_proxyproto, "VH_step_tee": VH_step_tee,
-		"VH_step_throttle": VH_step_throttle, "VH_step_echo": VH_step_echo, "VH_prefetch_step": VH_prefetch_step, "VH_match_step": VH_match_step,
+		"VH_step_throttle": VH_step_throttle, "VH_step_echo": VH_step_echo, "VH_wrap_step": VH_wrap_step, "VH_prefetch_step": VH_prefetch_step, "VH_match_step": VH_match_step,
 	} {
 		vapi.Register("c01."+name, f)
 	}
